@@ -405,19 +405,32 @@ Proof.
     rewrite firstn_app_le by lia. rewrite skipn_app_le by lia. now rewrite <- !app_assoc.
 Qed.
 
+(* ------------------------------------------------------------------ bounded length fields *)
+Lemma wnat_eq lim z : (z <= Z.of_nat lim)%Z -> wnat lim z = Z.to_nat z.
+Proof. intros H. unfold wnat. f_equal. lia. Qed.
+Lemma wnat_le lim z : wnat lim z <= lim -> (z <= Z.of_nat lim)%Z.
+Proof. unfold wnat. intros H. destruct (Z.le_gt_cases z (Z.of_nat lim)) as [L|L]; [exact L|]. rewrite Z.min_r in H by lia. lia. Qed.
+Lemma wnat_zlen {A} lim (l : list A) : length l <= lim -> wnat lim (zlen l) = length l.
+Proof. intros H. rewrite wnat_eq by (unfold zlen; lia). unfold zlen. apply Nat2Z.id. Qed.
+Lemma align4_ge n : n <= align4 n.
+Proof. unfold align4. pose proof (Nat.div_mod (n + 3) 4 ltac:(lia)). pose proof (Nat.mod_upper_bound (n + 3) 4 ltac:(lia)). lia. Qed.
+
 (* ------------------------------------------------------------------ ROM side: a signed image with certificate block v1 *)
 Lemma rom_cb_v1_inv cb info : rom_cb_v1 cb = Some info ->
-  32 <= length cb /\ length cb = align4 (32 + natz (rd32 28 cb) + 128) /\ c1_il info = rd32 20 cb.
+  32 <= length cb /\ length cb = align4 (32 + natz (rd32 28 cb) + 128) /\ c1_il info = rd32 20 cb /\ (rd32 28 cb <= zlen cb)%Z.
 Proof.
   unfold rom_cb_v1. intros H.
   destruct (Nat.ltb (length cb) 32) eqn:E1; [discriminate|]. apply Nat.ltb_ge in E1.
   destruct (negb (eqb_list (firstn 4 cb) CERT_MAGIC_B)); [discriminate|].
   destruct (negb (rd32 8 cb =? 32)%Z); [discriminate|].
-  destruct (Nat.eqb (natz (rd32 24 cb)) 0 || Nat.ltb 4 (natz (rd32 24 cb))); [discriminate|].
-  destruct (negb (Nat.eqb (length cb) (align4 (32 + natz (rd32 28 cb) + 128)))) eqn:E2; [discriminate|].
+  destruct (Nat.eqb (wnat (length cb) (rd32 24 cb)) 0 || Nat.ltb 4 (wnat (length cb) (rd32 24 cb))); [discriminate|].
+  destruct (negb (Nat.eqb (length cb) (align4 (32 + wnat (length cb) (rd32 28 cb) + 128)))) eqn:E2; [discriminate|].
   apply negb_false_iff, Nat.eqb_eq in E2.
-  destruct (cb1_certs (natz (rd32 24 cb)) cb 32 (32 + natz (rd32 28 cb))) as [[cs e]|]; [|discriminate].
-  destruct (negb (Nat.eqb e (32 + natz (rd32 28 cb)))); [discriminate|]. injection H as <-. auto.
+  destruct (cb1_certs (wnat (length cb) (rd32 24 cb)) cb 32 (32 + wnat (length cb) (rd32 28 cb))) as [[cs e]|]; [|discriminate].
+  destruct (negb (Nat.eqb e (32 + wnat (length cb) (rd32 28 cb)))); [discriminate|]. injection H as <-.
+  assert (B : (rd32 28 cb <= Z.of_nat (length cb))%Z).
+  { apply wnat_le. pose proof (align4_ge (32 + wnat (length cb) (rd32 28 cb) + 128)). lia. }
+  rewrite (wnat_eq _ _ B) in E2. auto.
 Qed.
 
 Definition v1_obl (info : cb1_info) (msg sig : list N) : list obligation :=
@@ -439,23 +452,24 @@ Lemma rom_v1_layout cfg keys ty (a cbb tr sig : list N) info :
     else Some {| ro_plain := msg; ro_msg := msg; ro_obl := v1_obl info msg sig |}.
 Proof.
   intros MO W40 L44 CB IL RK LT SN s msg off cbsize.
-  destruct (rom_cb_v1_inv cbb info CB) as (L32 & LCB & ILE).
+  destruct (rom_cb_v1_inv cbb info CB) as (L32 & LCB & ILE & B28).
   unfold rom_signed_v1.
-  assert (O : natz (rd32 40 s) = off).
-  { unfold s. rewrite rd32_app by lia. rewrite W40. unfold natz, zlen. apply Nat2Z.id. }
-  rewrite O.
   assert (Ls : length s = off + cbsize + length tr + length sig) by (unfold s; rewrite !app_length; lia).
+  assert (O : wnat (length s) (rd32 40 s) = off).
+  { unfold s at 2. rewrite rd32_app by lia. rewrite W40. apply wnat_zlen. lia. }
+  rewrite O.
   replace (Nat.ltb off (min_off cfg ty)) with false by (symmetry; apply Nat.ltb_ge; exact MO).
   replace (Nat.ltb (length s) (off + 32)) with false by (symmetry; apply Nat.ltb_ge; lia). cbn [orb].
   assert (R28 : rd32 (off + 28) s = rd32 28 cbb).
   { unfold s. rewrite rd32_app_r by lia. replace (off + 28 - length a) with 28 by lia. apply rd32_app. lia. }
-  rewrite R28. rewrite <- LCB. fold cbsize.
+  rewrite R28. rewrite (wnat_eq (length s) (rd32 28 cbb)) by (unfold zlen in B28; fold cbsize in B28; lia).
+  fold (natz (rd32 28 cbb)). rewrite <- LCB. fold cbsize.
   replace (Nat.ltb (length s) (off + cbsize)) with false by (symmetry; apply Nat.ltb_ge; lia).
   assert (SL : slice s off (off + cbsize) = cbb).
   { unfold s. apply slice_app_mid. }
   rewrite SL, CB. rewrite RK, eqb_list_refl'. cbn [negb].
-  assert (ILn : natz (c1_il info) = length msg).
-  { rewrite IL. unfold natz, zlen, msg. apply Nat2Z.id. }
+  assert (ILn : wnat (length s) (c1_il info) = length msg).
+  { rewrite IL. apply wnat_zlen. unfold s, msg. rewrite !app_length. lia. }
   rewrite ILn.
   assert (TZ : tz_custom s = tz_custom a).
   { unfold tz_custom, rom_word, s. now rewrite rd32_app by lia. }
@@ -1245,7 +1259,7 @@ Qed.
 
 (* ------------------------------------------------------------------ ROM side: certificate block v2.1 + manifest *)
 Definition cb_v21_ok (rkth body : list N) (info : cb21_info) : Prop :=
-  16 <= length body /\ firstn 8 body = CHDR_B /\ natz (rd32 8 body) = length body /\
+  16 <= length body /\ firstn 8 body = CHDR_B /\ rd32 8 body = zlen body /\
   rom_cb_v21_body rkth body (length body) = Some info.
 Lemma rom_cb_v21_body_size rkth cb size info : rom_cb_v21_body rkth cb size = Some info -> c2_size info = size.
 Proof.
@@ -1267,7 +1281,7 @@ Proof.
   rewrite S8, eqb_list_refl'. cbn [negb].
   assert (R8 : rd32 (length a + 8) (a ++ body ++ rest) = rd32 8 body).
   { rewrite rd32_app_r by lia. replace (length a + 8 - length a) with 8 by lia. apply rd32_app. lia. }
-  rewrite R8, SZ.
+  rewrite R8, SZ. rewrite wnat_zlen by (rewrite !app_length; lia).
   replace (Nat.ltb (length (a ++ body ++ rest)) (length a + length body)) with false
     by (symmetry; apply Nat.ltb_ge; rewrite !app_length; lia).
   rewrite slice_app_mid. exact BD.
@@ -1311,8 +1325,8 @@ Proof.
   intros MO W40 L44 CB Lw2 LT Lw5 ML MB FB LS mf msg s.
   unfold rom_signed_v21.
   assert (Es : s = a ++ body ++ (mf ++ sig ++ dg)) by (unfold s, msg; now rewrite <- !app_assoc).
-  assert (O : natz (rd32 40 s) = length a).
-  { rewrite Es. rewrite rd32_app by lia. rewrite W40. unfold natz, zlen. apply Nat2Z.id. }
+  assert (O : wnat (length s) (rd32 40 s) = length a).
+  { rewrite Es at 2. rewrite rd32_app by lia. rewrite W40. apply wnat_zlen. rewrite Es, !app_length. lia. }
   rewrite O. replace (Nat.ltb (length a) (min_off cfg ty)) with false by (symmetry; apply Nat.ltb_ge; exact MO).
   destruct (rom_cb_v21_ctx (rk_rkth keys) body info a (mf ++ sig ++ dg) CB) as (CBE & CSZ).
   rewrite Es at 1. rewrite CBE, CSZ.
@@ -1352,8 +1366,8 @@ Proof.
   assert (TZ : tz_custom s = tz_custom a).
   { unfold tz_custom, rom_word. rewrite Es. now rewrite rd32_app by lia. }
   rewrite TZ. rewrite <- LT.
-  assert (MLn : natz (Z.of_N mlen) = length mf).
-  { unfold natz. rewrite <- Z_N_nat, N2Z.id. rewrite ML, Lmf. reflexivity. }
+  assert (MLn : wnat (length s) (Z.of_N mlen) = length mf).
+  { rewrite wnat_eq by (rewrite <- (N2Nat.id mlen), nat_N_Z, ML; lia). rewrite <- Z_N_nat, N2Z.id. rewrite ML, Lmf. reflexivity. }
   rewrite MLn.
   replace (Nat.eqb (length mf) (20 + length tzb + (if r_mcrc cfg then 4 else 0))) with true
     by (symmetry; apply Nat.eqb_eq; rewrite Lmf, Lw5; reflexivity).
